@@ -26,6 +26,8 @@ params (all JSON-able):
   combo_call / drain_call: "getone"  poll with getone() (bounded by a timeout) instead of getmany()
   offset_fetch_delay_ms: n         the coordinator answers OffsetFetch n virtual ms late (a slow / loading coordinator)
   late_leader: {"part": p, "after_ms": n}   the leader of partition p is elected only n ms after assign()
+  produce: {"part": p, "node": n, "nth": k}   an outside producer appends one record to partition p at the instant the k-th
+                                   parked long poll of broker n expires
   codec: None | "py"               run the consumer on the pure-Python record readers
   waiter_order: fifo | lifo         order in which blocked getone()/getmany() callers are woken (the library iterates a set)
   expect_oor: {"0": n}              the committed offset when it lies outside the log (position() may report it until the
@@ -67,6 +69,20 @@ class ConsumerCluster(Cluster):
         self.data_fetches = []  # fetch positions of every Fetch that was answered with data
         self._burst = {}  # conn -> [time of the last Fetch, consecutive Fetches without an idle gap]
         self._same_data = [None, 0]
+
+    produce_plan = None  # {"part": p, "node": n, "nth": k}: an outside producer appends one record to partition p at the
+    # very instant the k-th parked long poll of broker n expires (so a reply with data and a reply without are pending together)
+    produce_hook = None
+    _parked = 0
+
+    def h_Fetch(self, conn, req, entry, fault):
+        Cluster.h_Fetch(self, conn, req, entry, fault)
+        plan = self.produce_plan
+        if plan and conn.node == plan["node"] and conn.ctx.get("fetch_timer") is not None and not conn.ctx.get("_counted") is req:
+            conn.ctx["_counted"] = req
+            self._parked += 1
+            if self._parked == plan["nth"]:
+                self.world.loop.call_at(conn.ctx["fetch_timer"].when(), self.produce_hook)
 
     def on_request(self, conn, frame, fault=None):
         # Deliveries are instantaneous in the explorer, so a client that re-sends a request the moment the previous one is
@@ -259,6 +275,9 @@ class ConsumerScenario:
             cl.cut_plan = list(cuts)
         cl.fetch_cap = p.get("fetch_cap", 400)
         cl.offset_fetch_delay = p.get("offset_fetch_delay_ms", 0) / 1000.0
+        if p.get("produce"):
+            cl.produce_plan = dict(p["produce"])
+            cl.produce_hook = self.produce_one
         if p.get("late_leader"):
             # leader election for this partition is still pending at assignment time (metadata: LEADER_NOT_AVAILABLE)
             ll = p["late_leader"]
@@ -293,6 +312,21 @@ class ConsumerScenario:
 
             self._unpatch = unpatch
         world.main_task = world.spawn("c", self.main)
+
+    def produce_one(self):
+        """An outside producer appends one v2 record to the partition (ground truth updated first)."""
+        part = self.p["produce"]["part"]
+        cl = self.cluster
+        sp = cl.partition("t", part)
+        t = self.truth[part]
+        off = sp.end
+        cl.preload_exact("t", part, conslogs.build_shape("v2x1", off, part))
+        t["visible"].append(off)
+        t["vset"].add(off)
+        t["end"] = t["served_end"] = t["latest"] = sp.end
+        t.setdefault("appear", {})[off] = self.world.now()
+        self.world.log("produced", part, off)
+        cl._wake_fetchers(sp)
 
     # ---- scenario-specific alternatives -------------------------------------------------------------------
     def leader_move_alts(self, world, quiescent):
@@ -518,7 +552,10 @@ class ConsumerScenario:
                 self.rec("pos", i, j, call[1], pos, False)
             elif name == "getone":
                 parts = tuple(call[1]) if len(call) > 1 and call[1] else ()
+                if len(call) > 2:
+                    timeout = call[2]
                 self.rec("call", i, j, "getone", parts)
+                t_start = self.world.now()
                 r = await asyncio.wait_for(c.getone(*[self.tp(x) for x in parts]), timeout)
                 recs = (self._flatten(r),)
                 self.note_returned(recs)
@@ -539,7 +576,10 @@ class ConsumerScenario:
             else:
                 raise ValueError(call)
         except asyncio.TimeoutError:
-            self.rec("timeout", i, j, name)
+            if name == "getone":
+                self.rec("timeout", i, j, name, parts, t_start, self.world.now())
+            else:
+                self.rec("timeout", i, j, name)
         except asyncio.CancelledError:
             raise
         except Exception as e:  # noqa: BLE001
@@ -696,6 +736,8 @@ class Model:
                 self.on_raised(ev)
             elif kind == "combo-end":
                 self.on_combo_end(ev)
+            elif kind == "timeout" and len(ev) > 4:
+                self.on_getone_timeout(ev)
 
     def on_seek(self, part, o):
         t = self.truth[part]
@@ -786,6 +828,27 @@ class Model:
                       f"{where} returned {value}; allowed [{start}, {upper}] (one past the last returned record / seek target "
                       f".. next visible unreturned record)")
         # position() does not move the reference
+
+    PARKED = 1.0  # a caller blocked in getone() this long while a visible record was there the whole time was not woken
+
+    def on_getone_timeout(self, ev):
+        _, task, idx, name, parts, t0, t1 = ev
+        if t1 - t0 < self.PARKED:
+            return
+        for part in self.truth:
+            if (parts and part not in parts) or self.paused[part]:
+                continue
+            start = self.start_of(part)
+            if start is None:
+                continue
+            nxt = self.next_visible(part, start)
+            if nxt is None:
+                continue
+            since = max(t0, self.truth[part].get("appear", {}).get(nxt, 0.0))
+            if t1 - since >= self.PARKED:
+                self.fail("liveness", {"what": "blocked-getone-not-woken"},
+                          f"getone() (task {task} call {idx}) stayed blocked from {t0:.3f}s to {t1:.3f}s although t-{part}@{nxt} was in the log "
+                          f"since {since:.3f}s and no fault occurred in between")
 
     def on_combo_end(self, ev):
         _, part, k, s0, cut, pos, polls, fetched = ev
